@@ -6,7 +6,7 @@
    whether that was assigned by this incarnation or by an earlier one.
    Wiring (main.go lists nodes, constructs, starts informers, runs): gen/C03_current.v from translator facts.
    Outside the theorem's universe (monitored): tombstones, relists, nodes marked deleting, pre-set pod CIDRs. *)
-From NIPAM Require Import Sys Alloc_proofs Sys_proofs Hist_proofs Hist2_proofs Hist3_proofs Hist4_proofs Inv_proofs Just_proofs.
+From NIPAM Require Import Sys Alloc_proofs Sys_proofs Hist_proofs Hist2_proofs Hist3_proofs Hist4_proofs Inv_proofs Just_proofs Default_proofs.
 Open Scope N_scope.
 
 (* a crash keeps the API objects and forgets everything else *)
@@ -20,10 +20,10 @@ Print Assumptions C03_crash_keeps_only_api_objects.
 (* the new incarnation's state is a function of the API objects only: two worlds with the same API
    objects yield the same world after construction, whatever their previous memory was *)
 Theorem C03_rebuilt_from_api_objects_only :
-  forall po lab w w2 s1 s2 outs,
+  forall po lab w w2 s1 s2 outs dp,
   w_ctl w = None -> w_ctl w2 = None -> w_nodes w = w_nodes w2 -> w_ccs w = w_ccs w2 -> w_rv w = w_rv w2 ->
   w_delseen w = w_delseen w2 ->
-  step po lab w (Construct s1 s2 outs) = step po lab w2 (Construct s1 s2 outs).
+  step po lab w (Construct s1 s2 outs dp) = step po lab w2 (Construct s1 s2 outs dp).
 Proof. exact construct_from_api_only. Qed.
 Print Assumptions C03_rebuilt_from_api_objects_only.
 
